@@ -62,6 +62,21 @@ func extraSamples(rng *rand.Rand) (names []string, data [][]byte) {
 	add("p7s-bin", []byte("\x30\x82\x01\x02\x06\x09\x2A\x86\x48\x86\xF7\x0D\x01\x07\x02\xA0"))
 	add("shebang", []byte("#!  /usr/bin/env python  \nprint(1)\n"))
 	add("srt", []byte("1\r\n00:00:01,000 --> 00:00:02,000\r\nhello\r\n"))
+	// hand-over between root siblings: a TrueType prefix followed by (almost) an Access signature
+	for _, sig := range []string{"Standard ACE DB", "Standard Jet DB"} {
+		full := append([]byte{0x00, 0x01, 0x00, 0x00}, sig...)
+		add("ttf+"+sig, append(append([]byte{}, full...), make([]byte, 64)...))
+		for p := 4; p < len(full); p++ {
+			v := append(append([]byte{}, full...), make([]byte, 64)...)
+			v[p] ^= 0x20
+			add(fmt.Sprintf("ttf+%s~%d", sig, p), v)
+		}
+	}
+	// a Chrome extension header whose declared key / signature lengths point at bytes that are no zip
+	crx := append([]byte("Cr24\x03\x00\x00\x00\x64\x00\x00\x00\x64\x00\x00\x00"), bytes.Repeat([]byte("k"), 300)...)
+	add("crx-nozip", crx)
+	crx2 := append([]byte("Cr24\x03\x00\x00\x00\x00\x02\x00\x00\x00\x01\x00\x00"), bytes.Repeat([]byte{0x07}, 900)...)
+	add("crx-nozip-far", crx2)
 	return
 }
 
